@@ -148,26 +148,31 @@ Definition read_exactly (n : Z) (l : list byte) : result (list byte * list byte)
    4 (stray end-group), 6, 7 are ValueError.  Groups (wire type 3) are skipped by the code; they are
    outside this model (EOther).  Every turn consumes at least the key byte, so
    fuel = S (length bs) never runs out (EFuel is dead). *)
+Definition read_payload (wt : Z) (r1 : list byte) : result (pval * list byte) :=
+  if wt =? 0 then do (v, _, r) <- load_varint r1; Ok (PVar v, r)
+  else if wt =? 1 then do (p, r) <- read_exactly 8 r1; Ok (PRaw p, r)
+  else if wt =? 2 then do (len, _, r) <- load_varint r1; do (p, r') <- read_exactly len r; Ok (PRaw p, r')
+  else if wt =? 5 then do (p, r) <- read_exactly 4 r1; Ok (PRaw p, r)
+  else if wt =? 3 then Err EOther
+  else Err EValue.
+
+Definition load_step {A} (h : A -> Z -> Z -> pval -> result A) (rec : list byte -> A -> result A)
+    (bs : list byte) (st : A) : result A :=
+  do (key, _, r1) <- load_varint bs;
+  let num := Z.shiftr key 3 in
+  let wt := Z.land key 7 in
+  if num =? 0 then Err EValue else
+  do (pv, r2) <- read_payload wt r1;
+  do st' <- h st num wt pv;
+  rec r2 st'.
+
 Fixpoint load_loop {A} (h : A -> Z -> Z -> pval -> result A) (fuel : nat) (bs : list byte) (st : A) : result A :=
   match fuel with
   | O => Err EFuel
   | S f =>
       match bs with
       | [] => Ok st
-      | _ :: _ =>
-          do (key, _, r1) <- load_varint bs;
-          let num := Z.shiftr key 3 in
-          let wt := Z.land key 7 in
-          if num =? 0 then Err EValue else
-          do (pv, r2) <-
-            (if wt =? 0 then do (v, _, r) <- load_varint r1; Ok (PVar v, r)
-             else if wt =? 1 then do (p, r) <- read_exactly 8 r1; Ok (PRaw p, r)
-             else if wt =? 2 then do (len, _, r) <- load_varint r1; do (p, r') <- read_exactly len r; Ok (PRaw p, r')
-             else if wt =? 5 then do (p, r) <- read_exactly 4 r1; Ok (PRaw p, r)
-             else if wt =? 3 then Err EOther
-             else Err EValue);
-          do st' <- h st num wt pv;
-          load_loop h f r2 st'
+      | _ :: _ => load_step h (load_loop h f) bs st
       end
   end.
 
